@@ -25,17 +25,18 @@ MANIFEST = dict(
                 "of a flow is queued behind its EOF frame (C02_eof_frame_last); an end sends EOF only when it has stopped "
                 "reading, its buffer is empty and it can never frame another byte (C02_eof_sender_done); once the receiving "
                 "end has processed the EOF and not yet shut the endpoint socket, no DATA is in flight and everything read "
-                "from the peer endpoint is what was delivered plus exactly what that end still buffers (C02_eof_after_data_up/"
-                "_down; a residual 'lost' tail is possible only after the sender was told to stop), so the shutdown that "
-                "follows comes after all data; the closed direction leaves the other direction's accounting intact "
+                "from the peer endpoint is EXACTLY what was delivered plus what that end still buffers (C02_eof_after_data_up/"
+                "_down, no loss), and the end-of-stream path shuts the socket only when that buffer is empty "
+                "(C02_eof_shutdown_complete), so end-of-stream reaches an endpoint after every byte sent before the close; an "
+                "end discards buffered bytes only on STOP_SENDING, which is sent only after the sender shut its own socket "
+                "(C02_no_discard_before_shutdown, C02_stop_only_after_shutdown); the closed direction leaves the other direction's accounting intact "
                 "(C02_half_close); a handler with ok=False has shut its socket (C02_dead_handler_shut), a dropped handler "
                 "left no socket un-shut (C02_dropped_handler_shut), and - with no hypothesis on the schedule - ok=False "
                 "means all four shut flags set, buffers empty and the id unregistered, i.e. reusable (C02_finished_frees_id). "
                 "The model is replayed against the real classes on every run with close-order scenarios; teardown within "
                 "bounded work and absence of stuck states are checked on the real code by the fair-drain oracle."),
     level_note=("Trusted: as C01. Liveness (teardown within bounded work, no stuck state under a fair schedule) is decided on the "
-                "real code by the fair-drain oracle for the generated schedules, not by a theorem. The 'lost' tail in "
-                "C02_eof_after_data is not yet proved empty before the receiver's own shutdown."),
+                "real code by the fair-drain oracle for the generated schedules, not by a theorem."),
     technique="Lean 4 proof (invariants over all schedules) + differential replay + fair-drain oracle on the real classes",
 )
 
